@@ -39,13 +39,14 @@ static int c03_region_ok(const void *p, size_t n)
 }
 
 static volatile unsigned c03_sink;
+static int c03_no_guard_probe;	/* set by the raw-module injector */
 
 /* guard frames of a sample with data: 4 bytes before, 4 frames after */
 static int c03_guards(const struct xmp_sample *s)
 {
 	long framelen = 1, bytelen;
 	long k;
-	if (s->data == NULL || (s->flg & XMP_SAMPLE_SYNTH))
+	if (s->data == NULL || (s->flg & XMP_SAMPLE_SYNTH) || c03_no_guard_probe)
 		return 1;
 	if (s->len < 0)
 		return 0;
